@@ -4,6 +4,8 @@ import (
 	"bytes"
 	"context"
 	"sync"
+
+	"github.com/ThreeDotsLabs/watermill/verifhook"
 )
 
 var closedchan = make(chan struct{})
@@ -102,6 +104,7 @@ func (m *Message) Ack() bool {
 		return true
 	}
 
+	verifhook.At("message.ack.locked", m.UUID)
 	m.ackSentType = ack
 	if m.ack == nil {
 		m.ack = closedchan
@@ -128,6 +131,7 @@ func (m *Message) Nack() bool {
 		return true
 	}
 
+	verifhook.At("message.nack.locked", m.UUID)
 	m.ackSentType = nack
 
 	if m.noAck == nil {
